@@ -13,18 +13,18 @@ import (
 )
 
 type CEnv struct {
-	x     *Exec
-	st    *State
-	old   *State // pre-state of the call / function
-	entry *State // state at loop entry
-	vars  map[string]Value
-	vtype map[string]types.Type
-	fr    *Frame
-	fn    *ssa.Function
-	at    *ssa.BasicBlock // where local names are resolved (loop header)
-	pkg   string          // package path for pure/const lookup
-	depth int
-	qn    int
+	x        *Exec
+	st       *State
+	old      *State // pre-state of the call / function
+	entry    *State // state at loop entry
+	vars     map[string]Value
+	vtype    map[string]types.Type
+	fr       *Frame
+	fn       *ssa.Function
+	at       *ssa.BasicBlock // where local names are resolved (loop header)
+	pkg      string          // package path for pure/const lookup
+	depth    int
+	qn       int
 	noUnfold bool
 }
 
@@ -322,6 +322,10 @@ func (e *CEnv) pkgMember(pkgPath, name string) (Value, bool) {
 			return BoolLit(constant.BoolVal(o.Val())), true
 		case constant.String:
 			return e.x.strLit(e.st, constant.StringVal(o.Val())), true
+		}
+	case *types.Func:
+		if fn, ok := sp.Members[name].(*ssa.Function); ok {
+			return &FuncVal{Fn: fn, Name: name}, true
 		}
 	case *types.Var:
 		if g, ok := sp.Members[name].(*ssa.Global); ok {
@@ -1030,9 +1034,29 @@ func (e *CEnv) call(ex *CExpr) Value {
 			cfail("typeIs on non-interface")
 		}
 		if iv.Dyn == nil {
-			return TFalse
+			if iv.Sym == nil {
+				return TFalse
+			}
+			return And(Ne(iv.Sym, IntLit(0)), Eq(dynTag(iv.Sym), e.x.W.tagNum(args[1].Str)))
 		}
 		return BoolLit(typeName(iv.Dyn) == args[1].Str)
+	case "dynint":
+		// dynint(x): the integer value held by an interface value whose dynamic type is integer-kinded
+		need(1)
+		iv, ok := ev(0).(*IfaceVal)
+		if !ok {
+			cfail("dynint on non-interface")
+		}
+		if iv.Dyn != nil {
+			if t, ok := iv.V.(*Term); ok {
+				return e.asInt(t)
+			}
+			cfail("dynint: not an integer-kinded value")
+		}
+		if iv.Sym == nil {
+			return IntLit(0)
+		}
+		return dynInt(iv.Sym)
 	}
 	// uninterpreted spec functions declared in a contract file
 	if u, ok := e.x.W.Uninterp[name]; ok {
